@@ -391,7 +391,13 @@ def _extended(ctx, S, n, minimal):
         if n in ('OP_DIV', 'OP_MOD') and ctx.branch(b == 0): raise Fail(ANYERR)
         if n in ('OP_LSHIFT', 'OP_RSHIFT'):
             if ctx.branch(z3.Or(b < 0, b >= 64)): raise RefAbort('shift count negative or >= 64: result not prescribed (only crash-freedom)')
-            if ctx.branch(a < 0): raise RefAbort('shift of a negative number: not prescribed (sign-magnitude vs two\'s complement)')
+            if n == 'OP_LSHIFT' and ctx.branch(a < 0): raise RefAbort('left shift of a negative number: not prescribed (sign-magnitude vs two\'s complement)')
+            if n == 'OP_RSHIFT' and ctx.branch(a < 0):
+                # a signed right shift divides by 2^b; the two readings (two's complement: floor, sign-magnitude: toward zero) agree when the division is exact -
+                # there the result is prescribed, elsewhere it is not (seed C17-8: a logical shift of the 64-bit pattern is neither)
+                fl = a >> b; tr = -z3.LShR(-a, b)
+                if ctx.branch(fl != tr): raise RefAbort('right shift of a negative number with a remainder: rounding not prescribed (floor vs toward zero)')
+                st.pop(); st.pop(); st.append(num_encode(ctx, simp_t(fl))); return
             if n == 'OP_LSHIFT' and ctx.branch(z3.Or(b >= 32, a >= (1 << 31))): raise RefAbort('left shift beyond the 64-bit range: not prescribed')
         absa = z3.If(a < 0, -a, a); absb = z3.If(b < 0, -b, b)
         if n == 'OP_MUL': r = a * b
